@@ -707,6 +707,12 @@ class ParameterConfig:
       a subspace.
     """
     if not math.isfinite(self.num_feasible_values):
+      if self.type == ParameterType.DOUBLE:
+        # Continuous parameters have no subspaces, but the value is validated
+        # all the same (callers rely on it, see SequentialParameterBuilder).
+        self._assert_feasible(
+            trial.ParameterValue(value).cast_as_internal(self.type)
+        )
       return SearchSpace()
     value = trial.ParameterValue(value).cast_as_internal(self.type)
     self._assert_feasible(value)
